@@ -71,8 +71,9 @@ def extra(res, repo, tier, seed):
         res.undecided.append('anchor lost: DecreasePosition::process_collateral not found between its header and get_execution_params')
         return
     body = m.group(0)
-    if not (re.search(r'let \(base_pnl_usd, uncapped_base_pnl_usd, size_delta_in_tokens\) = self\s*\.position\s*\.pnl_value\(&self\.params\.prices, &self\.size_delta_usd\)\?;', body)
-            and len(re.findall(r'\bsize_delta_in_tokens\b', body)) == 2 and re.search(r'\n\s*size_delta_in_tokens,\n', body)):
+    compact = re.sub(r'\s+', '', re.sub(r'//[^\n]*', '', body))   # layout-insensitive: a re-formatted tree keeps the anchor
+    if not ('let(base_pnl_usd,uncapped_base_pnl_usd,size_delta_in_tokens)=self.position.pnl_value(&self.params.prices,&self.size_delta_usd)?;' in compact
+            and len(re.findall(r'\bsize_delta_in_tokens\b', body)) == 2 and re.search(r'[,{]size_delta_in_tokens[,}]', compact)):
         res.undecided.append('anchor lost: process_collateral no longer takes size_delta_in_tokens from pnl_value(&self.params.prices, &self.size_delta_usd) and passes it on unchanged (assumed contract of C07 not re-established)')
     bad = re.findall(r'open_interest|collateral_sum|size_in_usd_mut|size_in_tokens_mut|collateral_amount_mut|self\.size_delta_usd\s*=[^=]', body)
     if bad:
